@@ -18,7 +18,7 @@
              [t_af]; in class sync the real Synchronization tasks of bindings that declare it), mixed inside
              one backlog.
    Evaluated by vm_compute in the generated cases files. *)
-From Verif Require Import Common C07_Model C07_Spec.
+From Verif Require Import Common C07_Model C07_Spec C07_LongSpec.
 
 Inductive case :=
 | mkCase (c_in : input) (c_int c_exp : obs)
@@ -68,11 +68,17 @@ Definition agrees (c : case) : bool :=
   | COp i o => list_eqb ostepobs_eqb (run_session (oi_v0 i) (oi_qs i) (oi_steps i)) o
   end.
 
+(* The predicates of C07_Spec, evaluated in the form of C07_LongSpec ([P_lz] = [P], [P_set_lz] = [P_set],
+   [P_session_lz] = [P_session] on every argument: theorems C07_lz_is_P, C07_lz_is_P_set, C07_lz_is_P_session;
+   the forms of C07_Spec need 2^n steps under call-by-value for n contexts), and beside each the count clause
+   ([P_count] etc., implied by the predicate: C07_P_implies_count ...): since seeded change C07-9 the layouts
+   of every class include backlogs of 63 ... 1000 tasks. *)
 Definition holds (c : case) : bool :=
   match c with
-  | mkCase i a b => P i a && P i b
-  | CSet i a b => P_set i a && P_set i b
-  | COp i o => P_session (oi_v0 i) (oi_qs i) (oi_steps i) o
+  | mkCase i a b => P_lz i a && P_lz i b && P_count i a && P_count i b
+  | CSet i a b => P_set_lz i a && P_set_lz i b && P_set_count i a && P_set_count i b
+  | COp i o => P_session_lz (oi_v0 i) (oi_qs i) (oi_steps i) o
+               && P_session_count (oi_v0 i) (oi_qs i) (oi_steps i) o
   end.
 
 Definition mismatches (cs : list case) : list N := indices_where (fun c => negb (agrees c)) cs.
